@@ -4,6 +4,8 @@ import (
 	"bytes"
 	"encoding/json"
 	"fmt"
+	"maps"
+	"slices"
 	"strings"
 
 	"github.com/cedar-policy/cedar-go/internal/consts"
@@ -138,8 +140,8 @@ func (j arrayJSON) ToNode() (ast.Node, error) {
 
 func (j recordJSON) ToNode() (ast.Node, error) {
 	var nodes ast.Pairs
-	for k, v := range j {
-		n, err := v.ToNode()
+	for _, k := range slices.Sorted(maps.Keys(j)) {
+		n, err := j[k].ToNode()
 		if err != nil {
 			return ast.Node{}, fmt.Errorf("error in record: %w", err)
 		}
